@@ -24,6 +24,15 @@ func (a *Int64) Store(v int64)     { vsched.Yield(); a.v = v }
 func (a *Int64) Add(d int64) int64 { vsched.Yield(); a.v += d; return a.v }
 func (a *Bool) Load() bool         { vsched.Yield(); return a.v }
 func (a *Bool) Store(v bool)       { vsched.Yield(); a.v = v }
+func (a *Bool) CompareAndSwap(o, n bool) bool {
+	vsched.Yield()
+	if a.v == o {
+		a.v = n
+		return true
+	}
+	return false
+}
+func (a *Bool) Swap(n bool) bool { vsched.Yield(); o := a.v; a.v = n; return o }
 
 func AddInt32(p *int32, d int32) int32 { vsched.Yield(); *p += d; return *p }
 func AddInt64(p *int64, d int64) int64 { vsched.Yield(); *p += d; return *p }
